@@ -4,6 +4,7 @@ package drafty
 import (
 	"encoding/json"
 	"errors"
+	"math"
 	"sort"
 	"strings"
 )
@@ -135,7 +136,8 @@ func (s *span) styleToSpan(in *style) error {
 	s.tp = in.Tp
 	s.at = in.At
 	s.end = in.Length
-	if s.end < 0 {
+	if s.end < 0 || (s.at > 0 && s.end > math.MaxInt-s.at) {
+		// Negative length or the end of the span is not representable.
 		return errInvalidContent
 	}
 	s.end += s.at
